@@ -28,6 +28,9 @@ Inductive instr :=
 | FBin (t : fty) (op : fbin) | FRel (t : fty) (op : cmp) | FNeg (t : fty)
 | Cvt (c : cvtop)
 | CallPow (t : ty)               (* call of the import math.pow_<t> *)
+| CallLoad (t : ty) (base : nat) (* call of the import stateful.load_<t>(id, init); in this model the
+                                    host's table lives after the locals: cell pair base+2*id *)
+| CallStore (t : ty) (base : nat)(* call of the import stateful.store_<t>(id, value) *)
 | If (bt : option vt) (th : list instr) (el : option (list instr))
 | Block (body : list instr)      (* block (empty type) … end *)
 | Loop (body : list instr)       (* loop (empty type) … end *)
@@ -104,14 +107,22 @@ Definition op_cvt (c : cvtop) : Z :=
   | CPromote => 187
   end.
 
-Fixpoint index_of (t : ty) (l : list ty) (i : Z) : Z :=
+(* host imports of the fragment *)
+Inductive imp := IPow (t : ty) | ILoad (t : ty) | IStore (t : ty).
+Definition imp_eqb (a b : imp) : bool :=
+  match a, b with
+  | IPow x, IPow y | ILoad x, ILoad y | IStore x, IStore y => ty_eqb x y
+  | _, _ => false
+  end.
+
+Fixpoint index_of (t : imp) (l : list imp) (i : Z) : Z :=
   match l with
   | [] => i
-  | x :: r => if ty_eqb x t then i else index_of t r (i + 1)
+  | x :: r => if imp_eqb x t then i else index_of t r (i + 1)
   end.
 
 Section Encode.
-  Variable imports : list ty.   (* the module's imports, all math.pow_<t>, in index order *)
+  Variable imports : list imp.   (* the module's imports, in index order *)
 
   Fixpoint enc_i (i : instr) : list Z :=
     match i with
@@ -129,7 +140,9 @@ Section Encode.
     | FNeg F32 => [140]
     | FNeg F64 => [154]
     | Cvt c => [op_cvt c]
-    | CallPow t => 16 :: uleb5 (index_of t imports 0)
+    | CallPow t => 16 :: uleb5 (index_of (IPow t) imports 0)
+    | CallLoad t _ => 16 :: uleb5 (index_of (ILoad t) imports 0)
+    | CallStore t _ => 16 :: uleb5 (index_of (IStore t) imports 0)
     | If bt th el =>
         4 :: (match bt with None => 64 | Some t => vt_byte t end) ::
         (fix go (l : list instr) : list Z :=
@@ -174,20 +187,24 @@ Record wfunc := {
 }.
 
 (* first-use order of the pow imports (resolve.Finalize registers imports in emission order) *)
-Fixpoint imports_i (i : instr) (acc : list ty) : list ty :=
+Definition add_imp (x : imp) (acc : list imp) : list imp :=
+  if existsb (imp_eqb x) acc then acc else acc ++ [x].
+Fixpoint imports_i (i : instr) (acc : list imp) : list imp :=
   match i with
-  | CallPow t => if existsb (ty_eqb t) acc then acc else acc ++ [t]
+  | CallPow t => add_imp (IPow t) acc
+  | CallLoad t _ => add_imp (ILoad t) acc
+  | CallStore t _ => add_imp (IStore t) acc
   | If _ th el =>
-      let go := fix go (l : list instr) (acc : list ty) : list ty :=
+      let go := fix go (l : list instr) (acc : list imp) : list imp :=
                   match l with [] => acc | x :: r => go r (imports_i x acc) end in
       let a1 := go th acc in
       match el with None => a1 | Some e => go e a1 end
   | Block body | Loop body =>
-      (fix go (l : list instr) (acc : list ty) : list ty :=
+      (fix go (l : list instr) (acc : list imp) : list imp :=
          match l with [] => acc | x :: r => go r (imports_i x acc) end) body acc
   | _ => acc
   end.
-Definition imports_l (l : list instr) : list ty := fold_left (fun a i => imports_i i a) l [].
+Definition imports_l (l : list instr) : list imp := fold_left (fun a i => imports_i i a) l [].
 
 (* the code-section entry of the function: locals, body, end *)
 Definition enc_func (f : wfunc) : list Z :=
@@ -246,6 +263,9 @@ Section Validate.
     | FNeg t => vop1 (VTF t) (VTF t) s
     | Cvt c => vop1 (fst (cvt_sig c)) (snd (cvt_sig c)) s
     | CallPow t => vop2 (vt_of t) (vt_of t) (vt_of t) s
+    | CallLoad t _ => vop2 (VTI W32) (vt_of t) (vt_of t) s
+    | CallStore t _ =>
+        match vpop (vt_of t) s with Some s1 => vpop (VTI W32) s1 | None => None end
     | If bt th el =>
         match vpop (VTI W32) s with
         | None => None
@@ -304,7 +324,7 @@ Section Exec.
 
   Inductive outcome :=
   | ONorm (st : list wval) (ls : list wval)
-  | ORet (v : wval)
+  | ORet (v : wval) (ls : list wval)
   | OTrap (k : trap)
   | OBr (n : nat) (ls : list wval)   (* branching to the n-th enclosing label *)
   | OFuel                            (* a loop ran for more than [wasm_fuel] iterations *)
@@ -405,6 +425,14 @@ Section Exec.
     | _, [] => None
     end.
 
+  (* what the stateful host keeps of a register: T(value) (stl/stateful bindScalarI32/I64) *)
+  Definition host_norm (t : ty) (v : wval) : option wval :=
+    match t, v with
+    | TI it, WI w z => if iw_eqb w (regw it) then Some (WI w (to_ity it z mod wmod w)) else None
+    | TF f, WF f' x => if fty_eqb f f' then Some v else None
+    | _, _ => None
+    end.
+
   Definition lift (r : option (trap + wval)) (st ls : list wval) : outcome :=
     match r with
     | Some (inr v) => ONorm (v :: st) ls
@@ -456,6 +484,42 @@ Section Exec.
         end
     | Cvt c => match st with v :: st' => lift (cvt_sem c v) st' ls | [] => OStuck end
     | CallPow t => match st with b :: a :: st' => lift (host_pow t a b) st' ls | _ => OStuck end
+    | CallLoad t base =>
+        match st with
+        | init :: WI W32 id :: st' =>
+            let c := (base + 2 * Z.to_nat id)%nat in
+            match nth_error ls c, host_norm t init with
+            | Some (WI W32 1), Some _ =>
+                match nth_error ls (S c) with Some v => ONorm (v :: st') ls | None => OStuck end
+            | Some _, Some kept =>
+                match set_nth c (WI W32 1) ls with
+                | Some ls1 => match set_nth (S c) kept ls1 with
+                              | Some ls2 => ONorm (init :: st') ls2     (* returns initValue itself *)
+                              | None => OStuck
+                              end
+                | None => OStuck
+                end
+            | _, _ => OStuck
+            end
+        | _ => OStuck
+        end
+    | CallStore t base =>
+        match st with
+        | v :: WI W32 id :: st' =>
+            let c := (base + 2 * Z.to_nat id)%nat in
+            match host_norm t v with
+            | Some kept =>
+                match set_nth c (WI W32 1) ls with
+                | Some ls1 => match set_nth (S c) kept ls1 with
+                              | Some ls2 => ONorm st' ls2
+                              | None => OStuck
+                              end
+                | None => OStuck
+                end
+            | None => OStuck
+            end
+        | _ => OStuck
+        end
     | If bt th el =>
         match st with
         | WI W32 c :: st' =>
@@ -521,7 +585,7 @@ Section Exec.
         | WI W32 c :: st' => if c =? 0 then ONorm st' ls else OBr n ls
         | _ => OStuck
         end
-    | Return => match st with v :: _ => ORet v | [] => OStuck end
+    | Return => match st with v :: _ => ORet v ls | [] => OStuck end
     | Unreachable => OTrap TUnreachable
     end.
 
@@ -545,12 +609,32 @@ Section Exec.
     match exec_l (w_body f) [] (args ++ map zero_w (w_locals f)) with
     | ONorm (v :: _) _ => WOk v
     | ONorm [] _ => WStuck
-    | ORet v => WOk v
+    | ORet v _ => WOk v
     | OTrap k => WTrap k
     | OBr _ _ => WStuck
     | OFuel => WFuel
     | OStuck => WStuck
     end.
+
+  (* a sequence of invocations on one instance: locals are fresh every time, the stateful host
+     table (two cells per local index, after the locals) persists. After an invocation that
+     does not return a value the remaining ones are not evaluated ([None]). *)
+  Fixpoint wasm_calls_from (f : wfunc) (cells : list wval) (calls : list (list wval))
+    : list (option wres) :=
+    match calls with
+    | [] => []
+    | args :: rest =>
+        let nl := length (w_params f ++ w_locals f) in
+        match exec_l (w_body f) [] (args ++ map zero_w (w_locals f) ++ cells) with
+        | ONorm (v :: _) ls' | ORet v ls' => Some (WOk v) :: wasm_calls_from f (skipn nl ls') rest
+        | ONorm [] _ | OBr _ _ | OStuck => Some WStuck :: map (fun _ => None) rest
+        | OTrap k => Some (WTrap k) :: map (fun _ => None) rest
+        | OFuel => Some WFuel :: map (fun _ => None) rest
+        end
+    end.
+  Definition wasm_calls (f : wfunc) (calls : list (list wval)) : list (option wres) :=
+    let nl := length (w_params f ++ w_locals f) in
+    wasm_calls_from f (repeat (WI W32 0) (2 * nl)) calls.
 End Exec.
 
 Arguments WI {fo}. Arguments WF {fo}.
